@@ -1,8 +1,11 @@
 """C62 Quantum-chemistry Hamiltonians are physically correct."""
 import itertools
 import math
+import os
 from fractions import Fraction
 
+for _v in ("OMP_NUM_THREADS", "OPENBLAS_NUM_THREADS", "MKL_NUM_THREADS"):   # small matrices: threads only hurt
+    os.environ.setdefault(_v, "1")
 import numpy as np
 
 from vlib import *
@@ -14,7 +17,7 @@ META = {
                  "of fermionic words (verified conservation checkers) + vm_compute correspondence against pennylane.qchem; "
                  "numerical tie of molecular_hamiltonian / taper against independent PySCF FCI/CASCI and own sparse matrices",
     "design_ref": "DESIGN.md §3 C62",
-    "text": "Kernel-checked theorems (Props/C62.v), universally quantified unless a bound is written in the statement: hf_state "
+    "text": "33 kernel-checked theorems (Props/C62.v), universally quantified unless a bound is written in the statement: hf_state "
             "(error conditions, length, occupation pattern, electron count; parity basis = prefix parities; Bravyi-Kitaev matrix = "
             "update sets of the fermi module for orbitals <= 12), excitations (every single/double is occupied->virtual with the "
             "spin selection rule, completeness, no duplicates, closed-form counts for delta_sz = 0 up to 12 spin orbitals), "
@@ -33,12 +36,18 @@ META = {
             "construction; (3) tapering: generators commute with H, spectrum of the tapered H equals the spectrum of H on the "
             "symmetry sector (optimal sector and one flipped sector), the N-electron ground-state energy is retained, taper_hf "
             "reproduces the HF energy.",
-    "note": "NOT a theorem: integrals, SCF and the agreement with PySCF FCI/CASCI energies are numerical comparisons "
+    "note": "FINDING kept under the stable key finding:pyscf-active-space-ignored-without-core: molecular_hamiltonian(method='pyscf', "
+            "active_orbitals=k) returns the FULL-space Hamiltonian when the active space has no core orbitals (`if core and active` "
+            "in _pyscf_integrals), unlike the dhf and openfermion back-ends.  NOT a theorem: integrals, SCF and the agreement with PySCF FCI/CASCI energies are numerical comparisons "
             "(tolerance 1e-6 Ha for pyscf/openfermion, 2e-6 Ha for the differentiable-HF back-end whose STO-3G integrals and SCF "
             "are independent of PySCF's); commutation with S^2 and all tapering statements are numerical (1e-8..1e-9) on the "
             "generated molecules only.  The conservation theorem is proved for the Fock representation (all n) and for the "
             "Jordan-Wigner image only up to 4 spin orbitals / words of length <= 4 (bound in the statement).  Only closed-shell "
-            "singlets in STO-3G; mult != 1, other bases, dipole_moment, convert.py, factorization are not covered.  hf_state's "
+            "singlets in STO-3G; mult != 1, other bases, dipole_moment, convert.py, factorization, the parity / Bravyi-Kitaev "
+            "mappings of molecular_hamiltonian, taper_operation and differentiation of the dhf Hamiltonian are not covered.  "
+            "qchem.spin2(electrons, orbitals) is by its documented formula 3/4*electrons + two-body part, i.e. S^2 only on the "
+            "`electrons`-particle sector; it is compared with S^2 + 3/4(electrons - N).  excitations(fermionic=True) returns "
+            "a+_occ a_virt (adjoint of the docstring's excitation operator): modelled as is, balance theorems stated for it.  hf_state's "
             "basis string is modelled as a three-valued enum (every unknown string means occupation_number, as in the code).",
     "assumptions": ["closed-shell molecules in STO-3G with at most 12 spin orbitals",
                     "PySCF 2.14 RHF/FCI/CASCI is the independent reference (same geometry, basis, charge)",
@@ -146,7 +155,8 @@ def comm_norm(A, B):
 
 # ------------------------------------------------------------------ independent reference (PySCF)
 def reference(c):
-    from pyscf import gto, scf, fci, mcscf
+    from pyscf import gto, scf, fci, mcscf, lib
+    lib.num_threads(1)
     mol = gto.M(atom=[(s, tuple(x)) for s, x in zip(c["symbols"], c["coords"])], unit="Bohr", basis="sto-3g",
                 charge=c["charge"], spin=0, verbose=0)
     mf = scf.RHF(mol)
@@ -208,7 +218,7 @@ def gen_mol(rng, kind, rigid=True):
         r = rng.uniform(2.3, 3.9)
         return {"name": "LiH", "symbols": ["Li", "H"], "coords": place(rng, [[0, 0, 0], [0, 0, r]], rigid), "charge": 0}
     if kind == "H4":
-        d = [rng.uniform(1.3, 2.2) for _ in range(3)]
+        d = [rng.uniform(1.3, 1.9) for _ in range(3)]
         base = np.array([[0, 0, 0], [0, 0, d[0]], [0, 0, d[0] + d[1]], [0, 0, d[0] + d[1] + d[2]]], dtype=float)
         base += np.array([[rng.uniform(-0.2, 0.2) for _ in range(3)] for _ in range(4)])
         return {"name": "H4", "symbols": ["H"] * 4, "coords": place(rng, base, rigid), "charge": 0}
@@ -244,6 +254,11 @@ def mol_cases(ctx):
     add(m, "dhf", ae=2, ao=2)
     add(m, "openfermion", ae=2, ao=2)
     add(m, "pyscf", ae=2, ao=2, taper=False)          # active space without core orbitals
+    for meth, mp in (("dhf", "parity"), ("pyscf", "bravyi_kitaev"), ("dhf", "bravyi_kitaev")):
+        cases.append(dict(m, method=meth, ae=None, ao=None, taper=False, mapping=mp))
+    m = gen_mol(rng, "H2")
+    cases.append(dict(m, method="pyscf", ae=None, ao=None, taper=False, mapping="parity"))
+    cases.append(dict(m, method="openfermion", ae=None, ao=None, taper=False, mapping="bravyi_kitaev"))
     if ctx.tier != "quick":
         for kind in ["H2", "HeH+", "H3+"]:
             for _ in range(3):
@@ -259,6 +274,9 @@ def mol_cases(ctx):
             add(m, "pyscf", ae=2, ao=5)
             add(m, "pyscf", ae=4, ao=4, flip=2)
             add(m, "dhf", ae=4, ao=rng.choice([3, 4]))
+        for mp in ("parity", "bravyi_kitaev"):
+            cases.append(dict(m, method="dhf", ae=2, ao=3, taper=False, mapping=mp))
+            cases.append(dict(m, method="pyscf", ae=2, ao=5, taper=False, mapping=mp))
         m = gen_mol(rng, "LiH")
         add(m, "pyscf")                                # 12 qubits, full space
         add(m, "dhf", taper=False)
@@ -273,7 +291,10 @@ def mol_cases(ctx):
 
 # ------------------------------------------------------------------ checks on one molecule
 def case_key(c):
-    return json.dumps({k: c[k] for k in ("name", "coords", "charge", "method", "ae", "ao")}, sort_keys=True)
+    d = {k: c[k] for k in ("name", "coords", "charge", "method", "ae", "ao")}
+    if c.get("mapping", "jordan_wigner") != "jordan_wigner":
+        d["mapping"] = c["mapping"]
+    return json.dumps(d, sort_keys=True)
 
 
 def verify_mol(ctx, c, o, stats, coq_cases):
@@ -301,6 +322,9 @@ def verify_mol(ctx, c, o, stats, coq_cases):
             stats["finding_pyscf_active"] += 1
         else:
             bad("qubits", f"{o['qubits']} qubits / wires {o['wires']} returned, expected {n}")
+        return
+    if c.get("mapping", "jordan_wigner") != "jordan_wigner":
+        verify_mapped(ctx, c, o, ref, n, ne, tol, stats, bad)
         return
     stats["molecules"] += 1
     stats["by_method"][c["method"]] = stats["by_method"].get(c["method"], 0) + 1
@@ -370,7 +394,7 @@ def verify_mol(ctx, c, o, stats, coq_cases):
         bad("ferm-raise", f"fermionic Hamiltonian raised {o['ferm_error']}")
     if "ferm" in o:
         words = [t[0] for t in o["ferm"]]
-        coq_cases.append(("conserve:" + key, f"QCons {glist(words, g_fword)} true true"))
+        coq_cases.append(("conserve:" + key, f"QCons {g_fwords(words)} true true"))
         stats["ferm_terms"] += len(words)
         F = fermi_matrix(o["ferm"], n)
         d = maxabs(F - H)
@@ -393,6 +417,25 @@ def verify_mol(ctx, c, o, stats, coq_cases):
             bad("taper-raise", f"tapering raised {o['taper_error']}")
         elif "taper" in o:
             verify_taper(ctx, c, o, H, n, ne, ev[0], e_hf, hf_idx, stats, bad)
+
+
+def verify_mapped(ctx, c, o, ref, n, ne, tol, stats, bad):
+    """parity / Bravyi-Kitaev mapping: isospectral to the Jordan-Wigner Hamiltonian of the same call; the HF determinant
+    written in that basis by hf_state(basis=...) has the RHF energy"""
+    H = sent_matrix(o["H"], n).toarray()
+    J = sent_matrix(o["H_jw"], n).toarray()
+    if max((abs(t[2]) for t in o["H"]), default=0.0) > 1e-10 or np.max(np.abs(H - H.conj().T)) > 1e-10:
+        bad("hermitian", "mapped Hamiltonian is not Hermitian")
+    d = float(np.max(np.abs(np.linalg.eigvalsh(H) - np.linalg.eigvalsh(J))))
+    stats["max_mapped_dspec"] = max(stats.get("max_mapped_dspec", 0.0), d)
+    if d > 1e-8:
+        bad("mapping-spectrum", f"{c['mapping']} Hamiltonian is not isospectral to the Jordan-Wigner one ({d:.2e})")
+    hb = o["hf_state_mapped"]
+    j = int("".join(map(str, hb)), 2)
+    e = float(H[j, j].real)
+    if len(hb) != n or abs(e - ref["e_hf"]) > tol:
+        bad("mapping-hf", f"hf_state(basis={c['mapping']}) = {hb} has energy {e:.10f}, RHF energy {ref['e_hf']:.10f}")
+    stats["mapped"] = stats.get("mapped", 0) + 1
 
 
 def verify_taper(ctx, c, o, H, n, ne, e_gs, e_hf, hf_idx, stats, bad):
@@ -485,12 +528,28 @@ def verify_taper(ctx, c, o, H, n, ne, e_gs, e_hf, hf_idx, stats, bad):
 
 
 # ------------------------------------------------------------------ Gallina printers
-def g_fword(w):
-    return glist(w, lambda l: f"({gnat(l[0])}, {gbool(l[1] == '+')})")
+def rnat(n):
+    n = int(n)
+    assert 0 <= n < 5000
+    return str(n)
+
+
+def rz(n):
+    n = int(n)
+    return f"({n})" if n < 0 else str(n)
+
+
+def g_fword_raw(w):
+    return glist(w, lambda l: f"({rnat(l[0])}, {gbool(l[1] == '+')})")
+
+
+def g_fwords(ws):
+    """a list of fermionic words; one scope delimiter for the whole literal (parsing `5%nat` per number is slow)"""
+    return "(" + glist(ws, g_fword_raw) + ")%nat"
 
 
 def g_sparse(word):
-    return glist(word, lambda e: f"({gnat(e[0])}, {P1[e[1]]})")
+    return "(" + glist(word, lambda e: f"({rnat(e[0])}, {P1[e[1]]})") + ")%nat"
 
 
 def g_c(re, im):
@@ -503,7 +562,7 @@ def g_psent_exact(terms, snap_im=False):
 
 
 def g_ll(xs):
-    return glist(xs, lambda x: glist(x, gnat))
+    return "(" + glist(xs, lambda x: glist(x, rnat)) + ")%nat"
 
 
 def g_basis(b):
@@ -519,11 +578,11 @@ def g_disc(c, o):
         return f"QExc {gz(c['e'])} {gz(c['o'])} {gz(c['d'])} " + ("None" if er else f"(Some ({g_ll(o['out'][0])}, {g_ll(o['out'][1])}))")
     if op == "excf":
         return f"QExcF {gz(c['e'])} {gz(c['o'])} {gz(c['d'])} " + (
-            "None" if er else f"(Some ({glist(o['out'][0], g_fword)}, {glist(o['out'][1], g_fword)}))")
+            "None" if er else f"(Some ({g_fwords(o['out'][0])}, {g_fwords(o['out'][1])}))")
     if op == "wires":
-        w = "None" if c.get("wires") is None else f"(Some {glist(c['wires'], gz)})"
-        ex = "None" if er else (f"(Some ({glist(o['out'][0], lambda x: glist(x, gz))}, "
-                                f"{glist(o['out'][1], lambda x: glist(x, lambda y: glist(y, gz)))}))")
+        w = "None" if c.get("wires") is None else f"(Some ({glist(c['wires'], rz)})%Z)"
+        ex = "None" if er else (f"(Some (({glist(o['out'][0], lambda x: glist(x, rz))})%Z, "
+                                f"({glist(o['out'][1], lambda x: glist(x, lambda y: glist(y, rz)))})%Z))")
         return f"QWires {g_ll(c['singles'])} {g_ll(c['doubles'])} {w} {ex}"
     if op == "obs":
         kind = {"number": "ONumber", "spinz": "OSpinz", "spin2": "OSpin2"}[c["kind"]]
@@ -546,7 +605,7 @@ def disc_cases(ctx):
         for e in range(-1, o + 2):
             for d in range(-3, 4):
                 cases.append({"op": "exc", "e": e, "o": o, "d": d})
-                if o <= 7 or (e + o + d) % 3 == 0:
+                if o <= 7:
                     cases.append({"op": "excf", "e": e, "o": o, "d": d})
     nmax = 6 if ctx.tier == "quick" else 8
     for n in range(-1, nmax + 1):
